@@ -304,7 +304,7 @@ pub fn run(ctx: &Ctx) {
          by a trusted caller on a twin handler. Distinct = case JSON.",
     );
     ctx.assume("permission model from src/auth.rs comments: the per-KG role decides data access, the global role only gates KG creation and admin commands");
-    ctx.run_part("multi_statement_programs", ctx.cases(1500, 40_000), || tape_strategy(80).prop_map(|t| decode(&t, false)), |c, o| check(ctx, c, o));
+    ctx.run_part("multi_statement_programs", ctx.cases(8000, 120_000), || tape_strategy(80).prop_map(|t| decode(&t, false)), |c, o| check(ctx, c, o));
 }
 
 pub fn replay(ctx: &Ctx, part: &str, case: &J) -> Option<Result<CheckResult, String>> {
